@@ -927,6 +927,189 @@ fn check_ros2_all(seed: u64, mode: u64) -> i32 {
 fn check_ros2_all_scalar(seed: u64) -> i32 { check_ros2_all(seed, 0) }
 fn check_ros2_all_multiframe(seed: u64) -> i32 { check_ros2_all(seed, 1) }
 
+/// C17 on the ROS 2 analyses (scalar costs): a single-parameter hardening never lowers a bound and never turns Err into Ok
+fn check_ros2_mono(seed: u64) -> i32 {
+    use response_time_analysis::ros2;
+    let mut r = Rng(seed ^ 0x3030);
+    let le = |a: &Result<Option<u64>, String>, b: &Result<Option<u64>, String>| -> bool {
+        match (a, b) { (Ok(_), Ok(None)) => true, (Ok(None), Ok(Some(_))) => false, (Ok(Some(x)), Ok(Some(y))) => x <= y, _ => false }
+    };
+    for _iter in 0..3000 {
+        let p = 1 + r.below(6); let q = 1 + r.below(p); let dl = q + r.below(p - q + 1);
+        let kind = r.below(3);
+        let limit = 1 + r.below(80);
+        let n = 1 + r.below(3) as usize;
+        let cbs: Vec<Cb> = (0..n).map(|_| { let t = 3 + r.below(9); Cb { t, j: r.below(t + 2), c: 1 + r.below(3), rtb: r.below(12), kind: r.below(4) as u8, prio: r.below(3) as i32 } }).collect();
+        let e = r.below(n as u64) as usize;
+        let first = r.below(n as u64) as usize;
+        let chain: Vec<usize> = if n >= 2 && first != e && r.below(2) == 0 { vec![first, e] } else { vec![e] };
+        // the hardening
+        let which = r.below(7); let victim = r.below(n as u64) as usize;
+        let mut hard = cbs.clone(); let mut hq = q; let mut hlimit = limit; let mut extra: Option<Cb> = None;
+        match which {
+            0 => hard[victim].c += 1,
+            1 => hard[victim].j += 1 + r.below(3),
+            2 => if hard[victim].t > 1 { hard[victim].t -= 1 },
+            3 => { let t = 3 + r.below(9); extra = Some(Cb { t, j: r.below(t + 2), c: 1 + r.below(3), rtb: r.below(12), kind: r.below(4) as u8, prio: r.below(3) as i32 }); }
+            4 => if hq > 1 { hq -= 1 },                   // less budget: less supply in every window
+            5 => hard[victim].rtb += 1 + r.below(3),      // larger assumed response-time bound of a callback
+            _ => hlimit += 1 + r.below(20),               // raising the limit must not change an Ok result
+        }
+        let run = |cbs: &Vec<Cb>, extra: &Option<Cb>, q: u64, limit: u64, bw: bool| -> Result<Option<u64>, String> {
+            let dl2 = dl.max(q).min(p);
+            let (sb, _, _, _, _) = supply_case(kind, q, dl2.max(q), p);
+            let mut all = cbs.clone(); if let Some(x) = extra { all.push(*x); }
+            let abs: Vec<Sporadic> = all.iter().map(|cb| Sporadic::new(d(cb.t), d(cb.j))).collect();
+            let cms: Vec<Scalar> = all.iter().map(|cb| Scalar::new(s(cb.c))).collect();
+            if bw {
+                let wl: Vec<_> = (0..all.len()).map(|i| ros2::bw::Callback::new(d(all[i].rtb), &abs[i], &cms[i], ros2_kind(&all[i]))).collect();
+                let sc: Vec<&ros2::bw::Callback<Sporadic, Scalar>> = chain.iter().map(|&i| &wl[i]).collect();
+                view(&guarded(|| ros2::bw::rta_subchain(&*sb, &wl, &sc, d(limit))))
+            } else {
+                let wl: Vec<_> = (0..all.len()).map(|i| ros2::rr::Callback::new(d(all[i].rtb), &abs[i], &cms[i], ros2_kind(&all[i]))).collect();
+                let sc: Vec<&ros2::rr::Callback<Sporadic, Scalar>> = chain.iter().map(|&i| &wl[i]).collect();
+                view(&guarded(|| ros2::rr::rta_subchain(&*sb, &wl, &sc, d(limit))))
+            }
+        };
+        // ECRTS'19 analyses: task under analysis = callback 0, the rest interfere / form the chain prefix
+        {
+            let run_e = |cbs: &Vec<Cb>, extra: &Option<Cb>, q: u64, limit: u64, b: u64, which_a: usize| -> Result<Option<u64>, String> {
+                let (sb, _, _, _, _) = supply_case(kind, q, dl.max(q).min(p).max(q), p);
+                let mut all = cbs.clone(); if let Some(x) = extra { all.push(*x); }
+                let to_rbf = |c: &Cb| RBF::new(Sporadic::new(d(c.t), d(c.j)), Scalar::new(s(c.c)));
+                let own = to_rbf(&all[0]);
+                let rest: Vec<_> = all[1..].iter().map(to_rbf).collect();
+                let everything: Vec<_> = all.iter().map(to_rbf).collect();
+                match which_a {
+                    0 => view(&guarded(|| ros2::rta_event_source(&*sb, &demand::Slice::of(&everything), d(limit)))),
+                    1 => view(&guarded(|| ros2::rta_timer(&*sb, &own, &demand::Slice::of(&rest), s(b), d(limit)))),
+                    2 => view(&guarded(|| ros2::rta_polling_point_callback(&*sb, &own, &demand::Slice::of(&rest), d(limit)))),
+                    _ => { let none: Vec<RBF<Sporadic, Scalar>> = vec![];   // chain: last = own, prefix = the rest, nobody else
+                           view(&guarded(|| ros2::rta_processing_chain(&*sb, &own, &demand::Slice::of(&rest), &demand::Slice::of(&everything), &demand::Slice::of(&none), d(limit)))) }
+                }
+            };
+            let b = r.below(3); let hb = if which == 5 { b + 1 } else { b };   // for these analyses hardening 5 raises the blocking bound
+            let mut hard_e = hard.clone(); if which == 5 { hard_e[victim].rtb = cbs[victim].rtb; }
+            for which_a in 0..4usize {
+                let base = run_e(&cbs, &None, q, limit, b, which_a);
+                let hd = run_e(&hard_e, &extra, hq, hlimit, hb, which_a);
+                let ok = if which == 6 { match (&base, &hd) { (Ok(Some(x)), Ok(y)) => *y == Some(*x), (Ok(None), Ok(_)) => true, _ => false } } else { le(&base, &hd) };
+                if !ok {
+                    let desc = format!("{{\"analysis\": \"ecrts19 #{}\", \"supply_kind\": {}, \"budget\": {}, \"deadline\": {}, \"period\": {}, \"limit\": {}, \"tasks(t,j,c)\": {:?}, \"blocking\": {}, \"hardening\": {}, \"victim\": {}, \"hardened\": {:?}, \"extra\": {:?}, \"hardened_budget\": {}, \"hardened_limit\": {}, \"hardened_blocking\": {}}}",
+                        which_a, kind, q, dl, p, limit, cbs.iter().map(|c| (c.t, c.j, c.c)).collect::<Vec<_>>(), b, which, victim,
+                        hard_e.iter().map(|c| (c.t, c.j, c.c)).collect::<Vec<_>>(), extra.map(|c| (c.t, c.j, c.c)), hq, hlimit, hb);
+                    return fail("ros2::monotonicity", desc, format!("hardened: {:?}", hd), format!(">= base: {:?}", base));
+                }
+            }
+        }
+        for bw in [false, true] {
+            let base = run(&cbs, &None, q, limit, bw);
+            let hd = run(&hard, &extra, hq, hlimit, bw);
+            let ok = if which == 6 { match (&base, &hd) { (Ok(Some(x)), Ok(y)) => *y == Some(*x), (Ok(None), Ok(_)) => true, _ => false } } else { le(&base, &hd) };
+            if !ok {
+                let desc = format!("{{\"analysis\": \"{}\", \"supply_kind\": {}, \"budget\": {}, \"deadline\": {}, \"period\": {}, \"limit\": {}, \"callbacks(t,j,c,rtb,kind,prio)\": {:?}, \"subchain\": {:?}, \"hardening\": {}, \"victim\": {}, \"hardened\": {:?}, \"extra\": {:?}, \"hardened_budget\": {}, \"hardened_limit\": {}}}",
+                    if bw { "bw" } else { "rr" }, kind, q, dl, p, limit, cbs.iter().map(|c| (c.t, c.j, c.c, c.rtb, c.kind, c.prio)).collect::<Vec<_>>(), chain, which, victim,
+                    hard.iter().map(|c| (c.t, c.j, c.c, c.rtb, c.kind, c.prio)).collect::<Vec<_>>(), extra.map(|c| (c.t, c.j, c.c, c.rtb, c.kind, c.prio)), hq, hlimit);
+                return fail("ros2::monotonicity", desc, format!("hardened: {:?}", hd), format!(">= base: {:?}", base));
+            }
+        }
+    }
+    0
+}
+
+/// C19 on the real functions: analyses that model the same system return identical results
+fn check_coincide(seed: u64) -> i32 {
+    use response_time_analysis::ros2;
+    let mut r = Rng(seed ^ 0xc019);
+    for _iter in 0..2500 {
+        let t0 = 2 + r.below(8); let j0 = r.below(2 * t0 + 1); let c0 = 1 + r.below(3);
+        let nhp = r.below(3) as usize;
+        let hp: Vec<(u64, u64, u64)> = (0..nhp).map(|_| { let t = 2 + r.below(9); (t, r.below(t + 3), 1 + r.below(3)) }).collect();
+        let b = r.below(4); let limit = 1 + r.below(70);
+        let ab = Sporadic::new(d(t0), d(j0));
+        let tua_rbf = RBF::new(ab, Scalar::new(s(c0)));
+        let hps: Vec<_> = hp.iter().map(|(t, j, c)| RBF::new(Sporadic::new(d(*t), d(*j)), Scalar::new(s(*c)))).collect();
+        let mut desc = format!("{{\"tua\": [{}, {}, {}], \"others\": {:?}, \"blocking\": {}, \"limit\": {}}}", t0, j0, c0, hp, b, limit);
+        macro_rules! same { ($name:expr, $a:expr, $b:expr) => {{
+            let x = view(&guarded(|| $a)); let y = view(&guarded(|| $b));
+            if x != y || x.is_err() { return fail($name, desc.clone(), format!("{:?}", x), format!("{:?}", y)); }
+        }}}
+        use fixed_priority as fp;
+        same!("coincide::LP-FP(last=1,B=0)==FP", fp::limited_preemptive::dedicated_uniproc_rta(&fp::limited_preemptive::TaskUnderAnalysis { wcet: Scalar::new(s(c0)), arrivals: &ab, last_np_segment: s(1), blocking_bound: s(0) }, &hps, d(limit)),
+              fp::fully_preemptive::dedicated_uniproc_rta(&tua_rbf, &hps, d(limit)));
+        same!("coincide::LP-FP(last=C)==NP-FP", fp::limited_preemptive::dedicated_uniproc_rta(&fp::limited_preemptive::TaskUnderAnalysis { wcet: Scalar::new(s(c0)), arrivals: &ab, last_np_segment: s(c0), blocking_bound: s(b) }, &hps, d(limit)),
+              fp::fully_nonpreemptive::dedicated_uniproc_rta(&fp::fully_nonpreemptive::TaskUnderAnalysis { wcet: Scalar::new(s(c0)), arrivals: &ab, blocking_bound: s(b) }, &hps, d(limit)));
+        same!("coincide::floating-FP==LP-FP(last=1)", fp::floating_nonpreemptive::dedicated_uniproc_rta(&fp::floating_nonpreemptive::TaskUnderAnalysis { rbf: &tua_rbf, blocking_bound: s(b) }, &hps, d(limit)),
+              fp::limited_preemptive::dedicated_uniproc_rta(&fp::limited_preemptive::TaskUnderAnalysis { wcet: Scalar::new(s(c0)), arrivals: &ab, last_np_segment: s(1), blocking_bound: s(b) }, &hps, d(limit)));
+        // EDF family
+        let dl0 = 1 + r.below(3 * t0);
+        let dls: Vec<u64> = hp.iter().map(|(t, _, _)| 1 + r.below(3 * t)).collect();
+        let segs: Vec<u64> = hp.iter().map(|(_, _, c)| 1 + r.below(*c)).collect();
+        desc = format!("{{\"tua\": [{}, {}, {}, {}], \"others\": {:?}, \"deadlines\": {:?}, \"segments\": {:?}, \"limit\": {}}}", t0, j0, c0, dl0, hp, dls, segs, limit);
+        let fl = |sg: &Vec<u64>| -> Vec<edf::floating_nonpreemptive::InterferingTask<RBF<Sporadic, Scalar>>> { hps.iter().zip(dls.iter()).zip(sg.iter()).map(|((rb, dl), x)| edf::floating_nonpreemptive::InterferingTask { rbf: rb, deadline: d(*dl), max_np_segment: s(*x) }).collect() };
+        let lp = |sg: &Vec<u64>| -> Vec<edf::limited_preemptive::InterferingTask<RBF<Sporadic, Scalar>>> { hps.iter().zip(dls.iter()).zip(sg.iter()).map(|((rb, dl), x)| edf::limited_preemptive::InterferingTask { rbf: rb, deadline: d(*dl), max_np_segment: s(*x) }).collect() };
+        let ones: Vec<u64> = hp.iter().map(|_| 1).collect();
+        let full: Vec<u64> = hp.iter().map(|(_, _, c)| *c).collect();
+        let pre: Vec<_> = hps.iter().zip(dls.iter()).map(|(rb, dl)| edf::fully_preemptive::Task { rbf: rb, deadline: d(*dl) }).collect();
+        let lp_tua = |last: u64| edf::limited_preemptive::TaskUnderAnalysis { wcet: Scalar::new(s(c0)), arrivals: &ab, deadline: d(dl0), last_np_segment: s(last) };
+        same!("coincide::floating-EDF==LP-EDF(last=1)", edf::floating_nonpreemptive::dedicated_uniproc_rta(&edf::floating_nonpreemptive::TaskUnderAnalysis { rbf: &tua_rbf, deadline: d(dl0) }, &fl(&segs), d(limit)),
+              edf::limited_preemptive::dedicated_uniproc_rta(&lp_tua(1), &lp(&segs), d(limit)));
+        same!("coincide::LP-EDF(all segments 1)==EDF", edf::limited_preemptive::dedicated_uniproc_rta(&lp_tua(1), &lp(&ones), d(limit)),
+              edf::fully_preemptive::dedicated_uniproc_rta(&edf::fully_preemptive::Task { rbf: &tua_rbf, deadline: d(dl0) }, &pre, d(limit)));
+        let np_abs: Vec<Sporadic> = hp.iter().map(|(t, j, _)| Sporadic::new(d(*t), d(*j))).collect();
+        let np_others: Vec<_> = np_abs.iter().zip(hp.iter()).zip(dls.iter()).map(|((a, (_, _, c)), dl)| edf::fully_nonpreemptive::Task { wcet: Scalar::new(s(*c)), arrivals: a, deadline: d(*dl) }).collect();
+        same!("coincide::LP-EDF(last=C,segments=WCETs)==NP-EDF", edf::limited_preemptive::dedicated_uniproc_rta(&lp_tua(c0), &lp(&full), d(limit)),
+              edf::fully_nonpreemptive::dedicated_uniproc_rta(&edf::fully_nonpreemptive::Task { wcet: Scalar::new(s(c0)), arrivals: &ab, deadline: d(dl0) }, &np_others, d(limit)));
+        // equal deadlines: the largest NP-EDF bound == FIFO (tasks that can release: jitter-free first arrival always exists for sporadic)
+        {
+            let mut all: Vec<(u64, u64, u64)> = hp.clone(); all.push((t0, j0, c0));
+            let abs: Vec<Sporadic> = all.iter().map(|(t, j, _)| Sporadic::new(d(*t), d(*j))).collect();
+            let dd = 1 + r.below(30);
+            let mut best: Result<Option<u64>, String> = Ok(Some(0));
+            for i in 0..all.len() {
+                let others: Vec<_> = (0..all.len()).filter(|k| *k != i).map(|k| edf::fully_nonpreemptive::Task { wcet: Scalar::new(s(all[k].2)), arrivals: &abs[k], deadline: d(dd) }).collect();
+                let ri = view(&guarded(|| edf::fully_nonpreemptive::dedicated_uniproc_rta(&edf::fully_nonpreemptive::Task { wcet: Scalar::new(s(all[i].2)), arrivals: &abs[i], deadline: d(dd) }, &others, d(limit))));
+                best = match (best, ri) { (Ok(Some(x)), Ok(Some(y))) => Ok(Some(x.max(y))), (Err(e), _) | (_, Err(e)) => Err(e), _ => Ok(None) };
+            }
+            let rbfs: Vec<_> = all.iter().map(|(t, j, c)| RBF::new(Sporadic::new(d(*t), d(*j)), Scalar::new(s(*c)))).collect();
+            let ff = view(&guarded(|| fifo::dedicated_uniproc_rta(&demand::Slice::of(&rbfs), d(limit))));
+            desc = format!("{{\"tasks\": {:?}, \"common deadline\": {}, \"limit\": {}}}", all, dd, limit);
+            if best != ff || ff.is_err() { return fail("coincide::max NP-EDF(equal deadlines)==FIFO", desc.clone(), format!("{:?}", best), format!("{:?}", ff)); }
+            // event source == FIFO on a dedicated processor
+            same!("coincide::event-source==FIFO", ros2::rta_event_source(&supply::Dedicated::new(), &demand::Slice::of(&rbfs), d(limit)), fifo::dedicated_uniproc_rta(&demand::Slice::of(&rbfs), d(limit)));
+            // full-budget reservations behave like a dedicated processor
+            let pp = 1 + r.below(7);
+            let per = supply::Periodic::new(s(pp), d(pp)); let con = supply::Constrained::new(s(pp), d(pp), d(pp)); let ded = supply::Dedicated::new();
+            let own = rbfs[rbfs.len() - 1].clone(); let rest: Vec<_> = rbfs[..rbfs.len() - 1].to_vec();
+            desc = format!("{{\"tasks\": {:?}, \"reservation period\": {}, \"blocking\": {}, \"limit\": {}}}", all, pp, b, limit);
+            same!("coincide::event-source periodic(Q=P)", ros2::rta_event_source(&per, &demand::Slice::of(&rbfs), d(limit)), ros2::rta_event_source(&ded, &demand::Slice::of(&rbfs), d(limit)));
+            same!("coincide::event-source constrained(Q=D=P)", ros2::rta_event_source(&con, &demand::Slice::of(&rbfs), d(limit)), ros2::rta_event_source(&ded, &demand::Slice::of(&rbfs), d(limit)));
+            same!("coincide::timer periodic(Q=P)", ros2::rta_timer(&per, &own, &demand::Slice::of(&rest), s(b), d(limit)), ros2::rta_timer(&ded, &own, &demand::Slice::of(&rest), s(b), d(limit)));
+            same!("coincide::timer constrained(Q=D=P)", ros2::rta_timer(&con, &own, &demand::Slice::of(&rest), s(b), d(limit)), ros2::rta_timer(&ded, &own, &demand::Slice::of(&rest), s(b), d(limit)));
+            same!("coincide::polling-point periodic(Q=P)", ros2::rta_polling_point_callback(&per, &own, &demand::Slice::of(&rest), d(limit)), ros2::rta_polling_point_callback(&ded, &own, &demand::Slice::of(&rest), d(limit)));
+            same!("coincide::chain constrained(Q=D=P)", ros2::rta_processing_chain(&con, &own, &demand::Slice::of(&rest), &demand::Slice::of(&rbfs), &demand::Slice::of(&rest[..0]), d(limit)),
+                  ros2::rta_processing_chain(&ded, &own, &demand::Slice::of(&rest), &demand::Slice::of(&rbfs), &demand::Slice::of(&rest[..0]), d(limit)));
+            // rr / bw
+            let cbs: Vec<Cb> = all.iter().map(|(t, j, c)| Cb { t: *t, j: *j, c: *c, rtb: r.below(12), kind: r.below(4) as u8, prio: r.below(3) as i32 }).collect();
+            let cms: Vec<Scalar> = cbs.iter().map(|cb| Scalar::new(s(cb.c))).collect();
+            let e = r.below(cbs.len() as u64) as usize;
+            {
+                let wl: Vec<_> = (0..cbs.len()).map(|i| ros2::rr::Callback::new(d(cbs[i].rtb), &abs[i], &cms[i], ros2_kind(&cbs[i]))).collect();
+                let sc = vec![&wl[e]];
+                same!("coincide::rr periodic(Q=P)", ros2::rr::rta_subchain(&per, &wl, &sc, d(limit)), ros2::rr::rta_subchain(&ded, &wl, &sc, d(limit)));
+                same!("coincide::rr constrained(Q=D=P)", ros2::rr::rta_subchain(&con, &wl, &sc, d(limit)), ros2::rr::rta_subchain(&ded, &wl, &sc, d(limit)));
+            }
+            {
+                let wl: Vec<_> = (0..cbs.len()).map(|i| ros2::bw::Callback::new(d(cbs[i].rtb), &abs[i], &cms[i], ros2_kind(&cbs[i]))).collect();
+                let sc = vec![&wl[e]];
+                same!("coincide::bw periodic(Q=P)", ros2::bw::rta_subchain(&per, &wl, &sc, d(limit)), ros2::bw::rta_subchain(&ded, &wl, &sc, d(limit)));
+                same!("coincide::bw constrained(Q=D=P)", ros2::bw::rta_subchain(&con, &wl, &sc, d(limit)), ros2::bw::rta_subchain(&ded, &wl, &sc, d(limit)));
+            }
+        }
+    }
+    0
+}
+
 pub fn search(obligation: &str, seed: u64) -> i32 {
     let o = obligation;
     let mut ran = false;
@@ -934,7 +1117,7 @@ pub fn search(obligation: &str, seed: u64) -> i32 {
     let mut rc = 0;
     if let Some(cat) = o.strip_prefix("cat:") {
         rc = match cat { "supply" => run(check_supply), "fixed_point" => run(check_fixed_point), "arrival" => run(check_arrival), "steps" => run(check_steps),
-                         "wcet_demand" => run(check_wcet_demand), "analyses" => { let rc = run(check_analyses); if rc == 0 { run(check_analyses_tab) } else { rc } }, "ros2" => { let rc = run(check_ros2); if rc == 0 { run(check_ros2_tab) } else { rc } }, "ros2_all_scalar" => run(check_ros2_all_scalar), "ros2_bw_all" => run(check_ros2_bw_all), "ros2_all_multiframe" => run(check_ros2_all_multiframe), _ => 3 };
+                         "wcet_demand" => run(check_wcet_demand), "analyses" => { let rc = run(check_analyses); if rc == 0 { run(check_analyses_tab) } else { rc } }, "ros2" => { let rc = run(check_ros2); if rc == 0 { run(check_ros2_tab) } else { rc } }, "ros2_all_scalar" => run(check_ros2_all_scalar), "ros2_bw_all" => run(check_ros2_bw_all), "ros2_mono" => run(check_ros2_mono), "coincide" => run(check_coincide), "ros2_all_multiframe" => run(check_ros2_all_multiframe), _ => 3 };
     }
     else if o.contains("src/arrival/steps") || o.contains("src/arrival/dmin") || o.contains("arrival_curve_prefix") { rc = run(check_steps); }
     else if o.contains("src/supply/") { rc = run(check_supply); if rc == 0 { rc = run(check_fixed_point); } }
